@@ -117,6 +117,9 @@ func FinalSelect(s string) string {
 
 // selectList cuts the select list out of the final select ("SELECT [DISTINCT] <list> FROM").
 func selectList(fs string) (list string, from string) {
+	if len(fs) < len("SELECT") || !strings.EqualFold(fs[:6], "SELECT") {
+		return "", ""
+	}
 	t := strings.TrimSpace(fs[len("SELECT"):])
 	if strings.HasPrefix(strings.ToUpper(t), "DISTINCT") {
 		t = strings.TrimSpace(t[len("DISTINCT"):])
